@@ -266,7 +266,7 @@ int main() {
             auto flush = [&]() {
                 if (cur.empty()) return;
                 Op op; op.code = cur[0]; bool ok = true;
-                if (cur[0] == 0) { op.key.assign(cur.begin() + 1, cur.end()); for (auto k : op.key) if (k < 1 || k >= NNAMES) ok = false; }
+                if (cur[0] == 0) { op.key.assign(cur.begin() + 1, cur.end()); for (auto k : op.key) if (k < 0 || k >= NNAMES) ok = false; }
                 else if (cur[0] == 1 && cur.size() == 2 && cur[1] >= 0) op.h = cur[1];
                 else if (cur[0] == 6 && cur.size() >= 2) { op.arg = cur[1]; ok = parsePattern(cur, 2, nrx, op.pat); }
                 else if (cur[0] == 11 || cur[0] == 12) ok = parsePattern(cur, 1, nrx, op.pat);
